@@ -1224,12 +1224,13 @@ example : (PSet.union [.leaf .integers, .cartesian [.leaf .real, .union [.leaf (
 
 /-! ## round 5: `IntervalProd.approx_equals` -/
 
-/-- `IntervalProd.approx_equals` between interval products of EQUAL dimension (any dimension,
-finite bounds, distinct objects): never raises; at `atol = 0` it is exactly `__eq__` (equal end
-points); it is symmetric for every `atol`, reflexive for `atol ≥ 0` and monotone in `atol`.
-Executed definition `intervalApproxEq` (driver op `approxeq`, stream `approxeq/*`).  For
-different dimensions see `C20.interval_approx_equals_ndim_fails` (finding C20-F18). -/
-theorem C20.interval_approx_equals_laws (lo hi lo' hi' : List Rat) (hl : lo'.length = lo.length)
+/-- `IntervalProd.approx_equals` (since /repo b059927) between ANY two interval products — any
+and mixed dimensions, finite bounds, distinct objects; the only hypotheses are the constructor
+invariants `len(min_pt) == len(max_pt)`: it never raises; at `atol = 0` it is exactly `__eq__`
+(equal end points, in particular equal dimension); it is symmetric for every `atol`, reflexive
+for `atol ≥ 0` and monotone in `atol`.  Executed definition `intervalApproxEq` (driver op
+`approxeq`, streams `approxeq/same-ndim/*` and `approxeq/other-ndim/*`). -/
+theorem C20.interval_approx_equals_laws (lo hi lo' hi' : List Rat)
     (h1 : hi.length = lo.length) (h2 : hi'.length = lo'.length) :
     (∀ atol, (intervalApproxEq atol lo hi lo' hi').isSome = true) ∧
     (intervalApproxEq 0 lo hi lo' hi' = some true ↔ lo = lo' ∧ hi = hi') ∧
@@ -1237,36 +1238,47 @@ theorem C20.interval_approx_equals_laws (lo hi lo' hi' : List Rat) (hl : lo'.len
     (∀ atol, 0 ≤ atol → intervalApproxEq atol lo hi lo hi = some true) ∧
     (∀ atol atol', atol ≤ atol' → intervalApproxEq atol lo hi lo' hi' = some true →
       intervalApproxEq atol' lo hi lo' hi' = some true) := by
-  have e1 : lo.length = lo'.length := hl.symm
-  have e2 : hi.length = hi'.length := by omega
-  have form : ∀ atol, intervalApproxEq atol lo hi lo' hi' =
-      some (closeAll atol lo lo' && closeAll atol hi hi') := by
-    intro atol
-    simp only [intervalApproxEq, npAllClose, e1, e2, if_true]
-    cases closeAll atol lo lo' <;> simp
-  have form' : ∀ atol, intervalApproxEq atol lo' hi' lo hi =
-      some (closeAll atol lo' lo && closeAll atol hi' hi) := by
-    intro atol
-    simp only [intervalApproxEq, npAllClose, e1.symm, e2.symm, if_true]
-    cases closeAll atol lo' lo <;> simp
-  refine ⟨fun atol => by simp [form], ?_, ?_, ?_, ?_⟩
-  · rw [form]; simp [closeAll_zero lo lo' e1, closeAll_zero hi hi' e2]
-  · intro atol; rw [form, form', closeAll_symm atol lo lo', closeAll_symm atol hi hi']
-  · intro atol ha
-    simp [intervalApproxEq, npAllClose, closeAll_refl atol ha]
-  · intro atol atol' hle
-    rw [form, form]
-    simp only [Option.some.injEq, Bool.and_eq_true]
-    rintro ⟨a, b⟩
-    exact ⟨closeAll_mono hle _ _ a, closeAll_mono hle _ _ b⟩
+  by_cases e1 : lo.length = lo'.length
+  · have e2 : hi.length = hi'.length := by omega
+    have form : ∀ atol, intervalApproxEq atol lo hi lo' hi' =
+        some (closeAll atol lo lo' && closeAll atol hi hi') := by
+      intro atol
+      simp only [intervalApproxEq, intervalApproxEqOld, npAllClose, e1, e2, if_true]
+      cases closeAll atol lo lo' <;> simp
+    have form' : ∀ atol, intervalApproxEq atol lo' hi' lo hi =
+        some (closeAll atol lo' lo && closeAll atol hi' hi) := by
+      intro atol
+      simp only [intervalApproxEq, intervalApproxEqOld, npAllClose, e1.symm, e2.symm, if_true]
+      cases closeAll atol lo' lo <;> simp
+    refine ⟨fun atol => by simp [form], ?_, ?_, ?_, ?_⟩
+    · rw [form]; simp [closeAll_zero lo lo' e1, closeAll_zero hi hi' e2]
+    · intro atol; rw [form, form', closeAll_symm atol lo lo', closeAll_symm atol hi hi']
+    · intro atol ha
+      simp [intervalApproxEq, intervalApproxEqOld, npAllClose, closeAll_refl atol ha]
+    · intro atol atol' hle
+      rw [form, form]
+      simp only [Option.some.injEq, Bool.and_eq_true]
+      rintro ⟨a, b⟩
+      exact ⟨closeAll_mono hle _ _ a, closeAll_mono hle _ _ b⟩
+  · have e1' : ¬ lo'.length = lo.length := fun h => e1 h.symm
+    have ne : ¬ (lo = lo' ∧ hi = hi') := fun h => e1 (by rw [h.1])
+    refine ⟨fun atol => by simp [intervalApproxEq, e1], ?_, ?_, ?_, ?_⟩
+    · simp [intervalApproxEq, e1, ne]
+    · intro atol; simp [intervalApproxEq, e1, e1']
+    · intro atol ha
+      simp [intervalApproxEq, intervalApproxEqOld, npAllClose, closeAll_refl atol ha]
+    · intro atol atol' _ h; simp [intervalApproxEq, e1] at h
 
-/-- Counterexamples on the model of the current code (finding C20-F18: no `ndim` guard, NumPy
-broadcasting): a 2-d against a 3-d interval product RAISES, a 1-d interval product is
-"approximately equal" to a 2-d one; and (no defect, but a limit of the notion) for `atol > 0`
-`approx_equals` is not transitive. -/
+/-- Sensitivity (the defect C20-F18, repaired in /repo b059927), on the model of the OLD
+`approx_equals` without the `ndim` guard (`intervalApproxEqOld`): a 2-d against a 3-d interval
+product RAISED and a 1-d interval product was "approximately equal" to a 2-d one by NumPy
+broadcasting; the current model answers `False` for both.  Last three parts (no defect, a limit
+of the notion, about the CURRENT model): for `atol > 0` `approx_equals` is not transitive. -/
 theorem C20.interval_approx_equals_ndim_fails :
-    intervalApproxEq 9 [0, 0] [1, 1] [0, 0, 0] [1, 1, 1] = none ∧
-    intervalApproxEq 9 [3/4] [3/4] [0, 0] [1, 1] = some true ∧
+    intervalApproxEqOld 9 [0, 0] [1, 1] [0, 0, 0] [1, 1, 1] = none ∧
+    intervalApproxEqOld 9 [3/4] [3/4] [0, 0] [1, 1] = some true ∧
+    intervalApproxEq 9 [0, 0] [1, 1] [0, 0, 0] [1, 1, 1] = some false ∧
+    intervalApproxEq 9 [3/4] [3/4] [0, 0] [1, 1] = some false ∧
     intervalApproxEq (1/4) [0] [1] [1/4] [1] = some true ∧
     intervalApproxEq (1/4) [1/4] [1] [1/2] [1] = some true ∧
     intervalApproxEq (1/4) [0] [1] [1/2] [1] = some false := by
